@@ -22,10 +22,52 @@ from common import canon_err, show_ints, show_rat, show_bool, parse_rat, close
 PROP = "C08"
 LEAN_MODULE = "SkVerif.Props.C08"
 OBLIGATIONS = [
+    "SkVerif.C08.grid_enumerates_every_combination",
+    "SkVerif.C08.grid_dict_items_kept",
+    "SkVerif.C08.grid_candidate_count",
+    "SkVerif.C08.grid_each_combination_once",
+    "SkVerif.C08.grid_validation",
+    "SkVerif.C08.same_splits_for_all_candidates",
+    "SkVerif.C08.cv_row_eq_independent_evaluate",
+    "SkVerif.C08.row_mean_is_arithmetic_mean",
+    "SkVerif.C08.selection_follows_ranking_direction",
+    "SkVerif.C08.best_in_declared_direction_partial",
+    "SkVerif.C08.rank_direction_ignores_metric",
+    "SkVerif.C08.best_is_lowest_as_coded",
+    "SkVerif.C08.best_is_max_for_score_fails",
+    "SkVerif.C08.ties_first",
+    "SkVerif.C08.best_params_index_score_consistent",
+    "SkVerif.C08.fit_refits_best_on_all_data",
+    "SkVerif.C08.refit_delegation_bisim_partial",
+    "SkVerif.C08.refit_delegation_default_update_fails",
+    "SkVerif.C08.no_refit_raises_NotFitted_partial",
+    "SkVerif.C08.no_refit_cutoff_does_not_raise",
+    "SkVerif.C08.unfitted_tuner_raises_NotFitted",
+    "SkVerif.C08.failed_fit_leaves_unfitted",
 ]
-TRUSTED = []
-ASSUMPTIONS = []
-RULE = ""
+TRUSTED = ["hand-written model SkVerif/Model/Tune.lean of _tune.py (candidate order, mean, rank, argmin, best_*, refit, guards, delegation)",
+           "evaluate() is an interface here (per-fold scores of a candidate; modelled under C07): the line carries the scores of an independent real evaluate() run per parameter set",
+           "the base forecaster is a parameter of the theorems; in the correspondence it is the table of results of directly constructed real forecasters",
+           "sklearn ParameterGrid order is modelled; ParameterSampler output is taken as data; _check_param_grid is the compat emulation (modelled, not verified)",
+           "pandas Series.rank(method='average') / argmin / DataFrame.mean(skipna) as documented (modelled)"]
+ASSUMPTIONS = ["n_jobs=None (sequential backend): the first failing candidate's exception propagates",
+               "scores are compared as exact rationals of the floats evaluate() returned; means within 1e-9",
+               "base forecasters obey C04 (guarded methods of an unfitted forecaster raise NotFittedError) -- hypothesis hwb of the bisimulation",
+               "X and fit_params are passed through unchanged and are not exercised"]
+RULE = ("exhaustive small scope: every vector of chosen mean scores over {0,1,2,NaN} for 1..4 candidates x both metric directions "
+        "(quick: seed-rotated tenth) + structured random (6 forecaster families incl. nested names through TransformedTargetForecaster / "
+        "MultiplexForecaster, grid lists, randomized search, refit on/off, both evaluate strategies, op sequences with repeated fit) + malformed stream; "
+        "distinct by driver line; non-trivial = the search completed with at least two candidates")
+LEVEL_TEXT = ("Lean 4 theorems, for all candidate lists / grids, score functions (NaN allowed), metric directions, base forecasters (abstract machine) and "
+              "call sequences, about an executable model of _tune.py: the grid enumerates every combination once, every candidate is evaluated on the tuner's cv "
+              "and series, each cv_results_ row is the mean of that candidate's evaluate() scores, the reported best is the lowest mean for losses (first among ties), "
+              "best index/params/score belong to one row, a refitted tuner is bisimilar to a forecaster built with the best parameters and fitted on all data, "
+              "without refit guarded methods raise NotFittedError. Three clauses fail for the code as it stands (greater-is-better metrics select the lowest score; "
+              "cutoff ignores refit=False; update_params defaults differ): kept as _partial theorems with machine-checked negation witnesses and listed as known findings. "
+              "The model is tied to the code by a differential correspondence and the property text is evaluated as an oracle on every real run.")
+LEVEL_NOTE = ("Trusted: Lean kernel, axioms propext/Classical.choice/Quot.sound, the model's faithfulness as exercised by the correspondence, pandas rank/argmin/mean and "
+              "sklearn ParameterGrid semantics (modelled), harness + compat layer. evaluate() itself is C07's; here each row is compared with an independent real evaluate() run.")
+TECHNIQUE = "Lean 4 proof (rank/argmin order embedding, induction over call sequences = bisimulation) + differential correspondence with the real tuners"
 
 BOOM_B = 7      # ScoreForecaster(b=7).fit fails on the WHOLE series only (refit failure)
 BOOM_A = 9      # ScoreForecaster(a=9).fit fails on any shorter series (failure inside evaluate)
@@ -832,7 +874,7 @@ def gen_cases(tier, rng):
                     continue
                 cases.append(_small_case(list(vec), gib, idx % 3 != 0, idx % 5 == 0))
     # (B) structured random
-    for _ in range(110 if tier == "quick" else 1800):
+    for _ in range(170 if tier == "quick" else 2200):
         cases.append(_random_case(rng))
     # (C) malformed stream
     cases.extend(_malformed(rng))
